@@ -143,3 +143,31 @@ def skip():
     with NoTracing():
         _ps.bump('paths_assumed_away')
     return (True,)
+
+
+def _zclose(a, b, rel):
+    za, zb = zv(a), zv(b)
+    d = za - zb
+    ad = z3.If(d >= 0, d, -d)
+    ab = z3.If(zb >= 0, zb, -zb)
+    return ad <= z3.RealVal(repr(rel)) * (1 + ab)
+
+
+def all_close(pairs, labels=None, rel=None):
+    """Conjunction of close(a, b) over pairs decided with ONE branch (a single z3 formula) instead of
+    ~3 Python-level forks per comparison.  Returns (ok, label of the first failing pair or 'ok')."""
+    labels = labels or ['#%d' % i for i in range(len(pairs))]
+    if REPLAY is not None:
+        for (a, b), lab in zip(pairs, labels):
+            if not close(a, b, rel):
+                return False, lab
+        return True, 'ok'
+    with NoTracing():
+        conj = z3.And(*[_zclose(a, b, 1e-6 if rel is None else rel) for a, b in pairs])
+        sb = SymbolicBool(conj)
+    if sb:
+        return True, 'ok'
+    for (a, b), lab in zip(pairs, labels):      # only on a failing path: name the culprit
+        if not close(a, b, rel):
+            return False, lab
+    return False, 'conjunction'
